@@ -201,6 +201,9 @@ class RSAKey(object):
         :type sLen: int
         :param sLen: length of salt"""
         EM = self.EMSA_PSS_encode(mHash, numBits(self.n) - 1, hAlg, sLen)
+        # when the modulus is 8k+1 bits long EM is one byte shorter than it
+        if len(EM) < numBytes(self.n):
+            EM = bytearray(numBytes(self.n) - len(EM)) + EM
         try:
             ret = self._raw_private_key_op_bytes(EM)
         except ValueError:
@@ -281,6 +284,12 @@ class RSAKey(object):
             EM = self._raw_public_key_op_bytes(S)
         except ValueError:
             raise InvalidSignature("Invalid signature")
+        # when the modulus is 8k+1 bits long EM is one byte shorter than it
+        em_len = divceil(numBits(self.n) - 1, 8)
+        if len(EM) > em_len:
+            if any(EM[:len(EM) - em_len]):
+                raise InvalidSignature("Invalid signature")
+            EM = EM[len(EM) - em_len:]
         result = self.EMSA_PSS_verify(mHash, EM, numBits(self.n) - 1,
                                       hAlg, sLen)
         if result:
